@@ -332,4 +332,110 @@ def r1_6(ctx: Ctx, rule: str = "R1.6") -> RuleResult:
     return rr
 
 
-RULES = [r1_1, r1_2, r1_3, r1_4, r1_5, r1_6]
+def r1_7(ctx: Ctx) -> RuleResult:
+    """Blank space (RFC 9535 `B` = space, tab, LF, CR) is skipped between tokens
+    and tolerated around the colons of a slice."""
+    import re._constants as sre_c
+
+    rr = RuleResult("R1.7", "RFC blank characters are skipped between tokens and inside slices", floor=3)
+    lex = ctx.lexer
+    where = lex.compile_fn.loc()
+    if not lex.skipped:
+        raise AnalysisError("R1.7: the lexer has no rule whose matches are skipped")
+    blanks = {" ", "\t", "\n", "\r"}
+    covered = set()
+    for rule in lex.skipped:
+        seq = list(regexast.parse(lex.rule_pattern(rule), lex.master.flags))
+        rep = regexast.single_repeat(seq)
+        if rep is None or rep[0] < 1:
+            continue
+        body = list(rep[2])
+        if len(body) == 1:
+            cs = regexast.char_set(body[0])
+            if cs and not cs[0]:
+                covered |= {c for c in cs[1] if isinstance(c, str)}
+                if "CATEGORY_SPACE" in cs[1]:
+                    covered |= blanks
+    missing = blanks - covered
+    if missing:
+        rr.bad(lex.compile_fn, None, f"the skip rule does not cover the blank character(s) {sorted(missing)!r}",
+               construct="skip rule blank characters")
+    else:
+        rr.ok(where, "skip rule covers space, tab, LF and CR")
+    # the skip rule must come after every rule that starts with a significant character it contains
+    names = [r for r, _ in lex.rules]
+    for rule in lex.skipped:
+        if names.index(rule) < len(names) - 2:
+            rr.bad(lex.compile_fn, None, f"the skip rule `{rule}` is tried before other token rules",
+                   construct="skip rule position")
+        else:
+            rr.ok(where, f"skip rule `{rule}` is tried after all token rules")
+    # slice: optional blank space on both sides of each colon
+    from sa.tokens import Emit
+
+    slice_rules = {e.rule for e in lex.emits if e.kind.startswith("SLICE")}
+    for rule in slice_rules:
+        tree = regexast.parse(lex.rule_pattern(rule), lex.master.flags)
+
+        def flat(seq):  # type: ignore[no-untyped-def]
+            out = []
+            for op, av in seq:
+                if op is sre_c.SUBPATTERN and av[0] is None:
+                    out.extend(flat(av[3]))
+                elif op in (sre_c.MAX_REPEAT, sre_c.MIN_REPEAT) and len(list(av[2])) == 1 and list(av[2])[0][0] is sre_c.SUBPATTERN and list(av[2])[0][1][0] is None:
+                    out.extend(flat(list(av[2])[0][1][3]))
+                elif op in (sre_c.MAX_REPEAT, sre_c.MIN_REPEAT) and av[0] == 0 and av[1] == 1 and len(list(av[2])) > 1:
+                    out.extend(flat(av[2]))  # an optional group the parser has inlined
+                else:
+                    out.append((op, av))
+            return out
+
+        items = flat(tree)
+
+        def is_space_rep(it):  # type: ignore[no-untyped-def]
+            if it is None or it[0] not in (sre_c.MAX_REPEAT, sre_c.MIN_REPEAT) or it[1][0] != 0:
+                return False
+            b = list(it[1][2])
+            cs = regexast.char_set(b[0]) if len(b) == 1 else None
+            return bool(cs and not cs[0] and ("CATEGORY_SPACE" in cs[1] or blanks <= cs[1]))
+
+        colons = [i for i, it in enumerate(items) if it[0] is sre_c.LITERAL and it[1] == ord(":")]
+        if len(colons) < 2:
+            raise AnalysisError("R1.7: the slice rule does not contain two colons")
+        for i in colons:
+            before = items[i - 1] if i > 0 else None
+            after = items[i + 1] if i + 1 < len(items) else None
+            # blank before the optional second colon may sit just outside its group
+            if is_space_rep(after) and (is_space_rep(before) or (i >= 2 and is_space_rep(items[i - 2]))):
+                rr.ok(where, f"slice rule `{rule}`: blank space allowed around colon #{colons.index(i) + 1}")
+            else:
+                rr.bad(lex.compile_fn, None, "the slice token does not tolerate blank space around its colons "
+                       "(`$[1 : 2]` is valid RFC 9535)", construct=f"slice colon #{colons.index(i) + 1} blank space")
+    return rr
+
+
+def r1_8(ctx: Ctx) -> RuleResult:
+    """An index that is out of range selects nothing: the element is fetched in a
+    way that fails for an out-of-range index (the raw index under
+    `suppress(IndexError)`, or a normalised index shown to be non-negative)."""
+    from .c03 import _elem_taken_by
+    from .c03 import appended_part
+
+    rr = RuleResult("R1.8", "an out-of-range index selects nothing", floor=2)
+    for fn, call, subj, ks, murky in site_kinds(ctx):
+        if class_of(fn) != "IndexSelector" or ks is None or not (ks <= {ARRAY}):
+            continue
+        k = appended_part(call)
+        obj = kw(call, "obj")
+        if isinstance(obj, ast.Await):
+            obj = obj.value
+        if k is not None and _elem_taken_by(obj, subj, k, fn, call):
+            rr.ok(fn.loc(call), f"{fn.qualname}: element fetched with {short(obj, 60)}")
+        else:
+            rr.bad(fn, call, f"the element is fetched with `{short(obj)}`: a normalised index that is still negative "
+                   "(or has wrapped around) selects an element although the index is out of range; fetch with the "
+                   "raw index, or test the normalised index first", construct=f"obj={short(obj)}")
+    return rr
+
+
+RULES = [r1_1, r1_2, r1_3, r1_4, r1_5, r1_6, r1_7, r1_8]
